@@ -70,8 +70,17 @@ func vfC04ServerTLS(cert string) *tls.Config {
 
 // vfC04Serve is a hostile-but-helpful server: it always offers PLAIN, takes credentials over any channel, and
 // lets the client go as far as it is willing to go.
-func vfC04Serve(pc *vfPeerConn, offer, reply, cert string) {
+func vfC04Serve(pc *vfPeerConn, offer, reply, cert string, bait bool) {
 	pc.idle = 3 * time.Second
+	// bait: stanzas a server may well send right behind the answer that makes a careful client give up (a request that
+	// gets an automatic error reply when it is routed, a message, an ack request). Whatever the client does with
+	// them, it must not write a stanza on the unprotected connection. Only for clients that did not ask for
+	// insecure mode (the others are expected to carry on in clear text).
+	baitXML := ""
+	if bait {
+		baitXML = "<iq type='get' id='bait-1' from='" + vfC04Domain + "'><query xmlns='urn:vf:bait'/></iq>" +
+			"<message id='bait-2' from='" + vfC04Domain + "'><body>hello</body></message><r xmlns='urn:xmpp:sm:3'/>"
+	}
 	feat := func(tlsPart bool) string {
 		s := "<stream:features>"
 		if tlsPart && offer != "absent" {
@@ -86,7 +95,11 @@ func vfC04Serve(pc *vfPeerConn, offer, reply, cert string) {
 	if _, err := pc.Expect("stream"); err != nil {
 		return
 	}
-	pc.Send(vfStreamHeader("jabber:client", "c04", vfC04Domain) + feat(true))
+	first := vfStreamHeader("jabber:client", "c04", vfC04Domain) + feat(true)
+	if offer == "absent" {
+		first += baitXML
+	}
+	pc.Send(first)
 	authed := false
 	for {
 		e, err := pc.Next()
@@ -96,6 +109,9 @@ func vfC04Serve(pc *vfPeerConn, offer, reply, cert string) {
 		switch {
 		case e.Kind == "close":
 			pc.Send("</stream:stream>")
+			if bait && !pc.inTLS {
+				pc.drain(300 * time.Millisecond) // whatever the client still writes after its closing tag is logged too
+			}
 			return
 		case e.Kind == "stream":
 			// restart: post-auth features if authenticated, else the pre-auth ones again
@@ -107,9 +123,9 @@ func vfC04Serve(pc *vfPeerConn, offer, reply, cert string) {
 		case e.Is(vfNSTLS, "starttls"):
 			switch reply {
 			case "failure":
-				pc.Send("<failure xmlns='" + vfNSTLS + "'/>")
+				pc.Send("<failure xmlns='" + vfNSTLS + "'/>" + baitXML)
 			case "garbage":
-				pc.Send("<message><body>tls? never heard of it</body></message>")
+				pc.Send("<message><body>tls? never heard of it</body></message>" + baitXML)
 			case "close":
 				pc.Close()
 				return
@@ -174,7 +190,7 @@ func vfC04RunTCP(run *vfkit.Run, cs *vfC04Case) {
 			pc.Close()
 			return
 		}
-		vfC04Serve(pc, cs.Offer, cs.Reply, cs.Cert)
+		vfC04Serve(pc, cs.Offer, cs.Reply, cs.Cert, !cs.Insecure)
 	})
 	defer peer.Stop()
 	_ = mu
@@ -264,6 +280,18 @@ func vfC04RunTCP(run *vfkit.Run, cs *vfC04Case) {
 	run.Count("clear_bytes_inspected", int64(len(clear)))
 	run.Count("tls_bytes_inspected", int64(len(inTLS)))
 	run.Nontrivial(fmt.Sprintf("%+v", *cs))
+}
+
+// drain reads (and logs) raw bytes until the client closes or stays silent for d.
+func (pc *vfPeerConn) drain(d time.Duration) {
+	buf := make([]byte, 4096)
+	for {
+		pc.c.SetReadDeadline(time.Now().Add(d))
+		if _, err := pc.tee.Read(buf); err != nil {
+			pc.c.SetReadDeadline(time.Time{})
+			return
+		}
+	}
 }
 
 func (pc *vfPeerConn) closedOrIdle() bool {
